@@ -238,6 +238,9 @@ func rulePAN2(p *Program) *RuleResult {
 		if ok, how := zeroGuarded(fn, v, at); ok {
 			return true, how
 		}
+		if how := nonZeroTableEntry(p, fn, v, at); how != "" {
+			return true, how
+		}
 		// divisor is (a conversion of) a parameter: shift the obligation to
 		// every static caller
 		if depth < 4 {
@@ -280,6 +283,43 @@ func rulePAN2(p *Program) *RuleResult {
 	r.floor("functions", 250)
 	r.floor("division_sites", 3)
 	return r
+}
+
+// nonZeroTableEntry: the divisor is the value of a comma-ok lookup in a constant
+// package-level table all of whose values are non-zero constants, used where the
+// lookup's ok flag is true.
+func nonZeroTableEntry(p *Program, fn *ssa.Function, v ssa.Value, at ssa.Instruction) string {
+	ex, ok := stripConv(v).(*ssa.Extract)
+	if !ok || ex.Index != 0 {
+		return ""
+	}
+	lk, ok := ex.Tuple.(*ssa.Lookup)
+	if !ok || !lk.CommaOk || lk.Referrers() == nil {
+		return ""
+	}
+	ld, ok := lk.X.(*ssa.UnOp)
+	if !ok {
+		return ""
+	}
+	g, ok := ld.X.(*ssa.Global)
+	if !ok {
+		return ""
+	}
+	tab, ok := p.allConstMaps()[g.Pkg.Pkg.Name()+"."+g.Name()]
+	if !ok || len(tab) == 0 {
+		return ""
+	}
+	for _, val := range tab {
+		if val.k != kConst || (val.c.Kind() != constant.Int && val.c.Kind() != constant.Float) || constant.Sign(val.c) == 0 {
+			return ""
+		}
+	}
+	for _, ref := range *lk.Referrers() {
+		if okx, isEx := ref.(*ssa.Extract); isEx && okx.Index == 1 && trueGuarded(fn, okx, at) {
+			return fmt.Sprintf("value of a comma-ok lookup in the constant table %s (%d non-zero entries), used under ok == true", g.Name(), len(tab))
+		}
+	}
+	return ""
 }
 
 func ifs(c bool, s string) string {
@@ -1046,6 +1086,12 @@ func rulePAN8(p *Program) *RuleResult {
 				if fin == "" && nan {
 					fin = nanOrFiniteLogQuotient(arg)
 				}
+				if fin == "" {
+					fin = finiteLogQuotientInline(fn, arg, call)
+				}
+				if fin == "" && !(nan && inf) {
+					fin = finiteAtEveryCallSite(p, fn, arg, 0)
+				}
 				switch {
 				case fin != "":
 					r.ok(key, "decimal.NewFromFloat on "+floatOrigin(arg), p.instrPos(ins), fin, true)
@@ -1098,7 +1144,7 @@ func rulePAN8(p *Program) *RuleResult {
 			r.undecided("system.Collection.ToFloat64|finite", fmt.Sprintf("only %d value returns found in ToFloat64", n), p.pos(tf.Pos()), "shape changed")
 		}
 	}
-	r.floor("float_to_decimal_sites", 2)
+	r.floor("float_to_decimal_sites", 1)
 	return r
 }
 
@@ -1213,6 +1259,96 @@ func nanOrFiniteLogQuotient(v ssa.Value) string {
 		}
 	}
 	return "the helper returns NaN or math.Log(a)/math.Log(b) with a > 0 and b > 1 enforced by its own exits (finite for the finite ToFloat64 operands, Log(b) > 0); the NaN case is excluded by the dominating math.IsNaN test"
+}
+
+// finiteLogQuotientInline: math.Log(a)/math.Log(b) written in place, with a and b
+// finite (ToFloat64, checked) and dominating exits for a <= 0 and b <= 1: the
+// numerator is finite and the denominator positive.
+func finiteLogQuotientInline(fn *ssa.Function, v ssa.Value, at ssa.Instruction) string {
+	bo, ok := v.(*ssa.BinOp)
+	if !ok || bo.Op != token.QUO {
+		return ""
+	}
+	operand := func(x ssa.Value) ssa.Value {
+		c, ok := x.(*ssa.Call)
+		if !ok || c.Common().StaticCallee() == nil || c.Common().StaticCallee().RelString(nil) != "math.Log" {
+			return nil
+		}
+		return c.Common().Args[0]
+	}
+	a, b := operand(bo.X), operand(bo.Y)
+	if a == nil || b == nil || !fromToFloat64(a) || !fromToFloat64(b) {
+		return ""
+	}
+	excluded := func(x ssa.Value, bound float64) bool {
+		for _, blk := range fn.Blocks {
+			ifi, ok := blk.Instrs[len(blk.Instrs)-1].(*ssa.If)
+			if !ok {
+				continue
+			}
+			for _, cmp := range condAtoms(ifi.Cond) {
+				k, ok := cmp.Y.(*ssa.Const)
+				if !ok || k.Value == nil || cmp.Op != token.LEQ || !sameAccess(cmp.X, x) {
+					continue
+				}
+				if f, _ := constant.Float64Val(constant.ToFloat(k.Value)); f != bound {
+					continue
+				}
+				// x <= bound leaves: the site is reached on the false edge only
+				if edgeDominates(blk, 1, at.Block()) {
+					return true
+				}
+			}
+		}
+		return false
+	}
+	if excluded(a, 0) && excluded(b, 1) {
+		return "math.Log(a)/math.Log(b) with a > 0 and b > 1 enforced by dominating exits and both operands finite (ToFloat64): finite numerator, positive denominator"
+	}
+	return ""
+}
+
+// finiteAtEveryCallSite: the float is a parameter of an unexported function that
+// is only called directly, and at each call site the argument is finite by one
+// of the rules above (construction, guarded square root, guarded log quotient,
+// dominating IsNaN and IsInf tests) — or, recursively, by its own callers.
+func finiteAtEveryCallSite(p *Program, fn *ssa.Function, v ssa.Value, depth int) string {
+	prm, ok := v.(*ssa.Parameter)
+	if !ok || depth > 3 {
+		return ""
+	}
+	sites, ok := p.directCallSites(fn)
+	if !ok {
+		return ""
+	}
+	pi := -1
+	for i, q := range fn.Params {
+		if q == prm {
+			pi = i
+		}
+	}
+	if pi < 0 {
+		return ""
+	}
+	for _, c := range sites {
+		if pi >= len(c.Common().Args) {
+			return ""
+		}
+		caller, arg := c.Parent(), c.Common().Args[pi]
+		nan := floatTestGuard(caller, arg, c, "IsNaN")
+		inf := floatTestGuard(caller, arg, c, "IsInf")
+		switch {
+		case nan && inf:
+		case finiteByConstruction(arg) != "":
+		case finiteSqrt(caller, arg, c) != "":
+		case nan && nanOrFiniteLogQuotient(arg) != "":
+		case finiteLogQuotientInline(caller, arg, c) != "":
+		case finiteAtEveryCallSite(p, caller, arg, depth+1) != "":
+		default:
+			return ""
+		}
+	}
+	return fmt.Sprintf("parameter of %s, finite at each of its %d call sites (by construction, guarded root / log quotient, or dominating IsNaN and IsInf tests there)", short(fn), len(sites))
 }
 
 func floatOrigin(v ssa.Value) string {
